@@ -40,6 +40,12 @@ class ExprMixin:
     def coerce(self, v: SV, ty: Ty, node=None) -> SV:
         if v.ty == ty:
             return v
+        if isinstance(v.ty, TEnum) and ty is TStr and v.ty.values and all(isinstance(x, str) for x in v.ty.values.values()):
+            # StrEnum member used as the string it is
+            t = z3.StringVal("")
+            for mem in v.ty.members:
+                t = z3.If(v.t == v.ty.member(mem), z3.StringVal(v.ty.values[mem]), t)
+            return SV(TStr, t)
         if isinstance(v.ty, TList) and v.t is None and isinstance(ty, TList):
             return self.empty_list(ty)
         if isinstance(v.ty, TSet) and v.t is None and isinstance(ty, TSet):
